@@ -55,8 +55,9 @@ BASE_CONSTANTS = {
     "G_LeaderFlush": "TRUE", "G_StaleTermAppend": "TRUE",
     "G_ConfigCommittedFirst": "TRUE", "G_OwnTermBeforeConfig": "TRUE", "G_PromoteAfterRound": "TRUE",
     "G_NonVoterNoElection": "TRUE", "G_StepDownWhenDemoted": "TRUE",
+    "G_XferCaughtUp": "TRUE", "G_XferBlocksEntries": "TRUE", "G_XferSuccessOnHigherTerm": "TRUE",
     "MaxRoundOrd": 3, "SegSize": 1024, "UpdBytes": 300, "MaxSnaps": 0, "FixD4": "TRUE", "FixD5": "TRUE", "FixD11": "TRUE", "FixD3": "TRUE", "FixD13": "TRUE", "RoundFastSet": "{TRUE}", "MaxCfgReqs": 0, "EdAddPromote": "{}", "EdAddNonvoter": "{}", "EdPromote": "{}", "EdDemote": "{}", "EdRemove": "{}", "EdForceRemove": "{}",
-    "FixD1": "TRUE", "FixD2": "TRUE",
+    "FixD1": "TRUE", "FixD2": "TRUE", "MaxXfers": 0, "MaxXferTries": 2, "XferTargets": "{None}",
 }
 
 
@@ -168,6 +169,10 @@ def ev_to_step(ev):
         return {"k": "task", "n": N(ev["n"]), "task": "changeConfig", "arg": {"nodes": lst}}
     if k == "disconnected":
         return {"k": k, "n": N(ev["n"]), "peer": N(ev["peer"])}
+    if k == "transfer":
+        return {"k": "task", "n": N(ev["n"]), "task": "transfer", "arg": {"target": 0 if ev["target"] in ("None", None) else N(ev["target"])}}
+    if k in ("xferTimeout", "newTermTimeout"):
+        return {"k": k, "n": N(ev["n"])}
     raise HarnessError("unknown event kind %r" % (k,))
 
 
@@ -325,7 +330,7 @@ def obs_check(records, workdir, timeout=900):
 # ---------------------------------------------------------------- trace validation (T)
 TRACE_CONSTS = {"None": "0", "MaxTerm": 100000, "MaxLog": 100000, "MaxCmds": 100000, "MaxCrash": 100000, "MaxInflight": 100000,
                 "MaxElections": 100000, "Orphans": "TRUE", "Reduce": "FALSE", "KeepHist": "FALSE",
-                "MaxRoundOrd": 100000, "MaxCfgReqs": 100000, "MaxSnaps": 100000, "RoundFastSet": "{TRUE, FALSE}"}
+                "MaxRoundOrd": 100000, "MaxCfgReqs": 100000, "MaxSnaps": 100000, "RoundFastSet": "{TRUE, FALSE}", "MaxXfers": 100000, "MaxXferTries": 100000}
 
 
 def trace_validate(records, workdir, sched0, timeout=900, max_drifts=4):
